@@ -164,5 +164,5 @@ def l02_seed_degree(ctx):
         except RecursionError:
             r.undecided.append('%s: recursion' % cfg)
     r.info['indicators with at least one decided seed/feed comparison'] = decided
-    r.floor('indicators with a decided seed/feed comparison', 20, decided + len({v.key.split('|')[0] for v in r.violations}))
+    r.floor('indicators with a decided seed/feed comparison', 16, decided + len({v.key.split('|')[0] for v in r.violations}))
     return r
